@@ -2,7 +2,7 @@
   Driver/Batt — command `batt`: `Model/Batt.battLife` on a scripted callback stream (C18, C17 clause 3).
 
   Certificate style: the solver parameter `solveI` is replayed from what the implementation's solver produced — a
-  table `(vo, rs, phase) ↦ current | exception class`, looked up with exact equality.  A solve the table has no
+  table `(vo, rs, phase) ↦ current | did-not-converge | exception class`, looked up with exact equality.  A solve the table has no
   entry for answers the exception `no-certificate`, so a run that asks the solver anything the implementation did not
   (another phase order, other source parameters) cannot agree with it.
 
@@ -11,7 +11,8 @@
         "params":[[source name, vo, rs]…]       (`params()` rows of the Sources before the call)
         "cutoff": num, "phases":[[name, num]…],
         "probe": cb, "deplete":[cb…]            cb = {"ret":[cap, volt, rs]} | {"raise": class}
-        "solve":[[vo, rs, phase, {"i": num} | {"err": class}]…]}
+        "solve":[[vo, rs, phase, {"i": num} | {"nonconv": true} | {"err": class}]…]}
+           ({"i"} = converged with that current; {"nonconv"} = `_solve` came back with iters = maxiter + 1)
   out: {"outcome": "ok" | "exhausted" | {"raised": {"cls", "detail"}},
         "log":[[t, cap, volt, rs]…], "calls":[[dt, i]…],
         "resolved": component the name resolves to | null, "vo": num, "rs": num   (of that component, afterwards)}
@@ -68,21 +69,25 @@ def phaseOf (j : Json) : Option (String × α) :=
   | _ => none
 
 /-- one line of the solver certificate -/
-def solveEntryOf (j : Json) : Option (α × α × String × Except Err α) :=
+def solveEntryOf (j : Json) : Option (α × α × String × Except Err (α × Nat)) :=
   match j with
   | .arr #[vo, rs, .str ph, res] => do
     let vo ← numOf vo
     let rs ← numOf rs
     match res.getObjVal? "i" with
-    | .ok x => do let i ← numOf x; pure (vo, rs, ph, .ok i)
+    | .ok x => do let i ← numOf x; pure (vo, rs, ph, .ok (i, 0))
     | .error _ =>
       match res.getObjValAs? String "err" with
       | .ok cls => pure (vo, rs, ph, .error (errOfClass cls))
-      | .error _ => none
+      | .error _ =>
+        match res.getObjValAs? Bool "nonconv" with
+        | .ok true => pure (vo, rs, ph, .ok (0, 10001))
+        | _ => none
   | _ => none
 
 /-- the solver replayed from the certificate -/
-def solveOfTable (tab : List (α × α × String × Except Err α)) (vo rs : α) (phase : String) : Except Err α :=
+def solveOfTable (tab : List (α × α × String × Except Err (α × Nat))) (vo rs : α) (phase : String) :
+    Except Err (α × Nat) :=
   match tab.find? (fun e => eqB e.1 vo && eqB e.2.1 rs && e.2.2.1 == phase) with
   | some e => e.2.2.2
   | none => .error (.other "no-certificate")
@@ -102,7 +107,7 @@ def outcomeOut (o : Outcome) : Json :=
   | .raised e => Json.mkObj [("raised", errOut e)]
 
 def run (j : Json) : Json :=
-  let parsed : Option (Input α × List (α × α × String × Except Err α)) := do
+  let parsed : Option (Input α × List (α × α × String × Except Err (α × Nat))) := do
     let nodes ← allSome nodeOf (jArr j "nodes").toList
     let rails ← allSome pairOf (jArr j "rails").toList
     let battery ← (j.getObjValAs? String "battery").toOption
